@@ -52,8 +52,11 @@ impl<X: nix::sys::socket::SockaddrLike> ToNetAddr for X {
 pub fn tokio_to_unixaddr(src: &tokio::net::unix::SocketAddr) -> UnixAddr {
     if let Some(path) = src.as_pathname() {
         UnixAddr::new(path).unwrap()
+    } else if let Some(name) = src.as_abstract_name() {
+        UnixAddr::new_abstract(name).unwrap()
     } else {
-        unimplemented!()
+        /* Clients rarely bind their end of the connection. */
+        UnixAddr::new_unnamed()
     }
 }
 
